@@ -6,6 +6,20 @@ import os
 ROOT = os.path.dirname(os.path.dirname(os.path.abspath(__file__)))
 
 CLAIMED = {
+    "C09": dict(
+        category="model_checking",
+        technique="token printer with a modelled cursor (TLA+): expected span facts per element path for simulate-mode "
+                  "programs, checked against the spans of the real AST; TLA+ snippet geometry (reference vs emitter "
+                  "arithmetic, TLC) + bounded-exhaustive lines x spans replayed through the public emitter",
+        text="SliceSyntax places every token under pseudo-random separators (tabs, CRLF, multi-byte text, wide blank) and "
+             "derives for each element path exact spans (identifiers, type references with attributes and '?', "
+             "attributes, integers) or span predicates (first token of the declaration proper, name included, ends on "
+             "a token of the element) which must hold for the spans of the compiled AST of 180 (10 000) programs. "
+             "Location.tla gives the snippet reference (gutter, padding, underline width, caret) and TLC checks the "
+             "emitter's arithmetic against it on every line <= 4 (5) over {a, blank, tab, 2-byte, 3-byte} x every span x "
+             "row numbers 1/9/100 x LF/CRLF plus multi-line spans; all 160 k cases are rendered by the real emitter.",
+        note="Diagnostic spans of rule violations and doc-comment parts are checked by C04 / C16 families.",
+        design_ref="5 (C09), 4 (Location, SliceSyntax)"),
     "C02": dict(
         category="model_checking",
         technique="generative TLA+ model of the Slice grammar (construction actions with the language rules as guards, "
